@@ -126,12 +126,20 @@ class Analyzer(ExprMixin):
         self.b.finding(rule, msg, line, self.ent_name)
 
     # --- read / edge notes (called from ExprMixin)
-    def note_read(self, e, line):
+    def note_read(self, e, line, ref=None):
         if e.store == "S":
             if e.mode == "out":
                 self.finding("read-out-port", f"output port '{e.name}' is read", line)
             if self.in_process is not None:
-                self.reads.append((e, self.guard_depth > 0))
+                self.reads.append((e, self.guard_depth > 0, self.ref_bits(ref) if ref is not None else None))
+
+    def ref_bits(self, ref):
+        """flat scalar sub-elements of the root signal denoted by a reference (None = all / unknown)"""
+        try:
+            steps = self.unify_steps(ref)
+            return flat_indices(self.b.S_types[ref.entry.sid], [(s_[0], s_[2]) if s_[0] != "slice" else ("slice", s_[3], s_[4]) for s_ in steps])
+        except (TypeErr, Unsupported, IndexError, KeyError):
+            return None
 
     def note_edge(self):
         self._edge_flag = True
@@ -557,6 +565,7 @@ class Analyzer(ExprMixin):
             self.emit(f"PS.update({tuple(self.cur_proc_vars)!r})")
         sens_sids = []
         sens_entries = []
+        sens_bits = {}  # sid -> frozenset of flat sub-elements named in the sensitivity list (None = whole signal)
         runs_once = p.sens is None and bool(p.body) and isinstance(p.body[-1], P.Wait) and \
             not any(isinstance(x, P.Wait) for x in p.body[:-1])
         if p.sens is None and not runs_once:
@@ -575,19 +584,30 @@ class Analyzer(ExprMixin):
                         self.finding("read-out-port", f"output port '{r.entry.name}' in sensitivity list", p.line)
                     sens_sids.append(r.entry.sid)
                     sens_entries.append(r.entry)
+                    bits = self.ref_bits(r)
+                    sens_bits[r.entry.sid] = None if (bits is None or sens_bits.get(r.entry.sid, frozenset()) is None) \
+                        else sens_bits.get(r.entry.sid, frozenset()) | bits
                 except TypeErr as ex:
                     self.finding(ex.rule, f"sensitivity list of {label}: {ex}", p.line)
         self.stmts(p.body)
         unguarded = {}
         allreads = {}
-        for e, g in self.reads:
+        partial = []
+        for e, g, bits in self.reads:
             allreads[e.sid] = e
             if not g:
                 unguarded[e.sid] = e
+                # the sensitivity list may name single elements / slices of a signal: an unguarded read of OTHER
+                # elements of the same signal is not covered by it
+                have = sens_bits.get(e.sid, frozenset())
+                if e.sid in sens_bits and have is not None:
+                    need = bits if bits is not None else frozenset(range(scalar_count(self.b.S_types[e.sid])))
+                    if not need <= have:
+                        partial.append(f"{e.name}{sorted(need - have)}")
         if p.sens == "all":
             sens_sids = list(allreads)
         elif p.sens is not None:
-            missing = [e.name for sid, e in unguarded.items() if sid not in sens_sids]
+            missing = [e.name for sid, e in unguarded.items() if sid not in sens_sids] + sorted(set(partial))
             if missing:
                 self.finding("sensitivity", f"process {label}: signals read outside a clock-edge guard are missing from the "
                                             f"sensitivity list: {sorted(missing)}", p.line)
@@ -623,7 +643,7 @@ class Analyzer(ExprMixin):
             self.finding(ex.rule, str(ex) if str(ex).startswith("line") else f"line {s.line}: {ex}", s.line)
             del self.lines[n0:]
             self.emit(f"raise SimError('statically invalid statement at line {s.line}')")
-        sens = [e.sid for e, g in self.reads]
+        sens = [e.sid for e, g, _b in self.reads]
         self.end_proc(idx, pyname, label, sens)
         self.in_process = None
 
